@@ -49,7 +49,7 @@ def run(ctx, shard):
         os_ = rng.choice(offs); o = Offset.from_seconds(os_)
         # choose the local day first so that range ends are hit, then derive the instant
         d = rng.choice([lo + 1, hi - 1, lo + 2, hi - 2, rng.randint(lo + 2, hi - 2), rng.randint(lo + 2, hi - 2)])
-        t = rng.choice([0, 1, DAY - 1, rng.randrange(DAY), (-os_ * 10**9) % DAY, (-os_ * 10**9 - 1) % DAY])
+        t = rng.choice([0, 1, DAY - 1, rng.randrange(DAY), rng.randrange(86400) * 10**9, rng.randrange(24) * 3600 * 10**9, (-os_ * 10**9) % DAY, (-os_ * 10**9 - 1) % DAY])
         n = d * DAY + t - os_ * 10**9
         if not IMIN + 2 * DAY <= n <= IMAX - 2 * DAY:
             n = max(IMIN + 2 * DAY, min(IMAX - 2 * DAY, n))
@@ -86,7 +86,11 @@ def run(ctx, shard):
         if od.at(odt.time_of_day) != odt or ot.on(odt.date) != odt:
             V("at-on", "OffsetDate.at / OffsetTime.on do not rebuild the value", case)
         # with_offset
-        for o2s in rng.sample(offs, 5) + [-os_]:
+        exact = []
+        if et % 10**9 == 0:
+            for target in (-DAY, 0, DAY, 2 * DAY, -DAY - 10**9, DAY - 10**9, -DAY + 10**9):
+                exact.append(os_ + (target - et) // 10**9)   # new offset so that time-of-day + (new - old) hits a day boundary exactly
+        for o2s in rng.sample(offs, 5) + [-os_] + exact:
             if not -64800 <= o2s <= 64800: continue
             o2 = Offset.from_seconds(o2s)
             L2 = n + o2s * 10**9; d2, t2 = divmod(L2, DAY)
